@@ -527,6 +527,9 @@ class EstimateAgent(Agent):  # pylint: disable=too-many-public-methods
 
         # [NOTE]: MMAE filter started but hasn't immediately converged
         if mmae_started:
+            # The adaptive filter is running now: it must not request another start on the next step
+            # (which would wrap it in a second adaptive filter)
+            adaptive_filter.flags &= ~FilterFlag.ADAPTIVE_ESTIMATION_START
             self._resetFilter(adaptive_filter)
 
     def _attemptInitialOrbitDetermination(
